@@ -35,10 +35,7 @@ Print Assumptions C08_disconnect_at_most_once.
 
 Theorem C08_main_never_self_blocks :
   forall s, reachable gen_params s -> main_blocked_on_disconnect s = false.
-Proof.
-  intros s H. pose proof (nonblocking_never_blocked gen_params s eq_refl H).
-  unfold main_blocked_on_disconnect. destruct (main s); auto; congruence.
-Qed.
+Proof. exact (never_self_blocked gen_params eq_refl). Qed.
 Print Assumptions C08_main_never_self_blocks.
 
 (* with a blocking disconnect(): the exact bound, and what happens beyond it *)
@@ -78,10 +75,7 @@ Theorem C08_idle :
   /\ (forall p s, enabled p LMainIdle s = true -> idle_timeout p <= idle s /\ idle_fired s = false)
   /\ (forall s s', step gen_params LMainMsg s = Some s' -> idle s' = 0 /\ idle_fired s' = false)
   /\ (forall p l s s', step p l s = Some s' -> l <> LTick -> idle s' <= idle s).
-Proof.
-  split; [exact idle_fires|]. split; [exact idle_not_early|]. split; [|exact idle_only_time].
-  intros s s'. apply idle_rearmed. reflexivity.
-Qed.
+Proof. exact (idle_clauses gen_params eq_refl). Qed.
 Print Assumptions C08_idle.
 
 (* why the handlers must be total: a handler panic skips HandleDisconnect and kills the process *)
@@ -94,6 +88,17 @@ Proof. exact panic_skips_disconnect. Qed.
 Print Assumptions C08_panic_skips_disconnect.
 
 (* ---- the hypotheses are satisfiable on non trivial values *)
+
+(* a reachable state in which HandleDisconnect has run (C08_disconnect_at_most_once) *)
+Example C08_once_example :
+  exists s, reachable params_fixed s /\ disconnect_calls s = 1 /\ clean_final s = true.
+Proof. exact once_example. Qed.
+
+(* the bound of C08_main_self_block_bound is attained (C08_burst_refuted is the case of nine own calls) *)
+Example C08_self_block_bound_tight :
+  exists s, run params_before bound_tight_witness init = Some s
+            /\ main s = MBlockDisc /\ main_disc_calls s + 1 = cap_disc params_before.
+Proof. exact self_block_bound_tight. Qed.
 
 (* a reachable state in which a failure has fired and Handle has not returned (C08_clean_end) *)
 Example C08_clean_end_premises :
